@@ -6,7 +6,7 @@
   interleaving engine delivers a permutation of it and terminates (C06_ref), the depth-first engine exactly it
   (C05_prolog).
 -/
-import PvModel.Proofs.RelCount
+import PvModel.Proofs.RelCountApp
 import PvModel.Props.C06
 namespace Pv
 open Strm Goal State Term
@@ -47,6 +47,27 @@ theorem C24_member1_one_per_value (ord : Order) (ho : OrderOK ord) (pf M : Nat) 
   obtain ⟨k, zs, hk, perm⟩ := C06_ref (defs ord) pf M m _ a ys hm
   exact ⟨ys, ps, k, zs, hk, perm, pw, mem, z⟩
 
+/-- `append(l, s, ls)` whose FIRST argument has a length the start state determines is a FUNCTION of it: the
+    engine terminates with AT MOST ONE answer; that answer describes exactly the valuations of the start state
+    under which `ls` is `l` followed by `s`; and there is no answer only when no described valuation satisfies
+    that.  (Any terms for `s` and `ls`, bound or not; the other modes of `append` enumerate splits and are
+    covered by `C24_append_complete`.) -/
+theorem C24_append_functional (ord : Order) (ho : OrderOK ord) (pf M : Nat) (d : Bool) (n : Nat) (l s ls : Term) (a : State)
+    (bl : Below a.nextVar l) (bs : Below a.nextVar s) (bls : Below a.nextVar ls)
+    (hp : a.panic.isSome = false) (hi : RInv a) (hd : DNF a) (hlen : ListLen n l a)
+    (hnf : ∀ b, Big (defs ord) (.call ⟨.append, [l, s, ls], d⟩) a b → b.panic.isSome = false) :
+    ∃ (k : Nat) (zs : List State),
+      drainF (solveAt (defs ord) pf (M + 1)) k (solveAt (defs ord) pf (M + 1) (.call ⟨.append, [l, s, ls], d⟩) a) = some zs ∧
+      zs.length ≤ 1 ∧
+      (∀ b ∈ zs, Describes a (fun γ => AppT (apply γ l) (apply γ s) (apply γ ls)) b) ∧
+      (zs = [] → ∀ γ, StateSem γ a → ¬ AppT (apply γ l) (apply γ s) (apply γ ls)) := by
+  obtain ⟨ys, ⟨m, hm⟩, hl, hdsc, hno⟩ := append_count ho d n l s ls a bl bs bls hp hi hd hlen hnf
+  obtain ⟨k, zs, hk, perm⟩ := C06_ref (defs ord) pf M m _ a ys hm
+  refine ⟨k, zs, hk, by rw [← perm.length_eq]; exact hl, fun b hb => hdsc b (perm.mem_iff.2 hb), fun hz => hno ?_⟩
+  have := perm.length_eq
+  rw [hz] at this
+  exact List.eq_nil_of_length_eq_zero (by simpa using this)
+
 /-- a literal list has its length in every state -/
 theorem C24_listLen_literal (xs : List Term) (a : State) : ListLen xs.length (ofList xs) a := by
   intro γ _
@@ -68,6 +89,8 @@ example : (evalRef (defs Order.default) 40 (.call ⟨.member, [.var 0, ofList [T
 example : (evalRef (defs Order.default) 40 (.call ⟨.member1, [.var 0, ofList [Term.num 1, Term.num 2, Term.num 1]], false⟩)
     (State.empty 1)).map (fun ys => ys.map fun s => (s.panic.isSome, apply s.σ (.var 0))) =
     some [(false, Term.num 1), (false, Term.num 2)] := by decide +kernel
+example : (evalRef (defs Order.default) 40 (.call ⟨.append, [ofList [Term.num 1, Term.num 2], ofList [Term.num 3], .var 0], false⟩)
+    (State.empty 1)).map (·.length) = some 1 := by decide +kernel
 end Examples
 
 end Pv
